@@ -34,25 +34,14 @@ func proofType(p *core.Program) *types.Named {
 
 // hexEncodingOf recognises the encoder idiom "0x" + big.Int(SetBytes(chunk)).Text(16) and returns the chunk.
 func hexEncodingOf(t *tf.Term) (*tf.Term, string) {
-	if !(t.K == tf.KCall && strings.HasSuffix(t.Name, "fmt.Sprintf") && len(t.Args) == 2) {
-		return nil, "not the \"0x\"+hex rendering of a big integer: " + describe(t)
+	x, why := hexOfBig(t)
+	if x == nil {
+		return nil, why
 	}
-	if s, ok := constStr(t.Args[0]); !ok || s != "0x%s" {
-		return nil, "format is " + describe(t.Args[0]) + ", not \"0x%s\""
+	if !(x.K == tf.KCall && strings.HasSuffix(x.Name, "math/big.Int).SetBytes") && len(x.Args) == 2) {
+		return nil, "the rendered integer is not SetBytes of a chunk: " + describe(x)
 	}
-	parts := tf.Parts(t.Args[1])
-	if len(parts) != 1 || parts[0].K != tf.KElem {
-		return nil, "unexpected Sprintf operands"
-	}
-	txt := parts[0].Args[0]
-	if !(txt.K == tf.KCall && strings.HasSuffix(txt.Name, "math/big.Int).Text") && len(txt.Args) == 2 && isConstInt(txt.Args[1], 16)) {
-		return nil, "digits are not big.Int.Text(16): " + describe(txt)
-	}
-	sb := txt.Args[0]
-	if !(sb.K == tf.KCall && strings.HasSuffix(sb.Name, "math/big.Int).SetBytes") && len(sb.Args) == 2) {
-		return nil, "the rendered integer is not SetBytes of a chunk: " + describe(sb)
-	}
-	return sb.Args[1], ""
+	return x.Args[1], ""
 }
 
 // chunkIndex: t == raw[32k:32k+32] → k.
